@@ -55,6 +55,8 @@ type updMempool struct {
 	recheck bool
 	mu      sync.Mutex
 	remain  map[int64]int
+	late    int64
+	id      int
 }
 
 func (m *updMempool) Update(h int64, txs types.Txs, res []*abci.ResponseDeliverTx, pre mempl.PreCheckFunc, post mempl.PostCheckFunc) error {
@@ -66,6 +68,21 @@ func (m *updMempool) Update(h int64, txs types.Txs, res []*abci.ResponseDeliverT
 	m.mu.Lock()
 	m.remain[h] = n
 	m.mu.Unlock()
+	return err
+}
+
+// FlushAppConn: a transaction submission is started right after the flush of the mempool connection has
+// returned and given a moment to get going before the executor carries on (a delay injected at an existing
+// suspension point).  The executor calls this with the mempool locked, so on a correct tree the submission
+// just waits for the lock and is checked after the update; nothing is assumed about that here - the
+// application-side history decides.
+func (m *updMempool) FlushAppConn() error {
+	err := m.Mempool.FlushAppConn()
+	k := atomic.AddInt64(&m.late, 1)
+	go func() {
+		_ = m.Mempool.CheckTx(types.Tx(fmt.Sprintf("late-%d-%d=v", m.id, k)), nil, mempl.TxInfo{SenderID: 999})
+	}()
+	time.Sleep(150 * time.Microsecond)
 	return err
 }
 
@@ -114,7 +131,7 @@ func runOneB(c *verdict.Ctx, idx int, tmp string) {
 			} else {
 				mp = mempoolv1.NewTxMempool(log.NewNopLogger(), mcfg, conns.Mempool(), st.LastBlockHeight)
 			}
-			wrapped = &updMempool{Mempool: mp, recheck: bc.Recheck, remain: map[int64]int{}}
+			wrapped = &updMempool{Mempool: mp, recheck: bc.Recheck, remain: map[int64]int{}, id: idx}
 			return wrapped
 		}}
 	if bc.Client == "socket" {
@@ -386,7 +403,20 @@ func runBChild(c *verdict.Ctx) {
 			}
 			c.Count("c05b.child_crashes", 1)
 			c.Set(fmt.Sprintf("c05b_child_crash_%d", attempt), map[string]interface{}{"cases_in_flight_up_to": last, "panic": msg})
-			c.Inconclusive("c05b child process crashed (" + msg + ")")
+			// the cases of the crashed batch are run again one per process, so that one crashing case does not
+			// take the others' histories with it; only a case that crashes on its own stays inconclusive
+			for k := from; k <= last && k < n; k++ {
+				evk := filepath.Join(tmp, fmt.Sprintf("evidence-%d-case-%d.json", attempt, k))
+				ck := exec.Command(bin, "--tier", c.Tier, "C05")
+				ck.Env = append(os.Environ(), "VERIF_C05_STAGE=b", "VERIF_EVIDENCE_PATH="+evk, fmt.Sprintf("VERIF_C05B_FROM=%d", k), fmt.Sprintf("VERIF_C05B_TO=%d", k+1),
+					"GORACE=halt_on_error=0 log_path="+filepath.Join(tmp, fmt.Sprintf("race-%d-%d", attempt, k)))
+				ck.Stdout = os.Stdout
+				_ = ck.Run()
+				if c.MergeChild(evk, "") != nil {
+					c.Count("c05b.cases_crashing_on_their_own", 1)
+					c.Inconclusive(fmt.Sprintf("c05b case %d: child process crashed (%s)", k, msg))
+				}
+			}
 			from = last + 1
 		}
 		logs, _ := filepath.Glob(filepath.Join(tmp, fmt.Sprintf("race-%d.*", attempt)))
